@@ -59,12 +59,17 @@ open SearchLemmas P19 BadWin
 
 example (v : Int) : EvalRange v ↔ (-20000 ≤ v ∧ v ≤ 20000) := Iff.rfl
 
-/-- `EvalRange` follows from C15: on legal material `|eval| ≤ 15145` -/
+/-- `EvalRange` follows from C15: on legal material `|eval| ≤ evalBound`, and `evalBound ≤ 20000` for the current tuning constants
+(`evalBound_le_20000`, a `decide`d inequality in `Proofs/EvalConsts.lean`) -/
 theorem evalRange_of_legalMaterial (p : Pos) (h : LegalMaterial p) (v : Int) (hv : evalRaw p = some v) : EvalRange v := by
   have := eval_bounded_explicit p h v hv
+  have := evalBound_le_20000
   unfold EvalRange; omega
 
-example : EvalRange 0 ∧ EvalRange (-15145) ∧ ¬ EvalRange (-32718) := by unfold EvalRange; omega
+example : EvalRange 0 ∧ EvalRange (-evalBound) ∧ ¬ EvalRange (-32718) := by
+  have := evalBound_le_20000
+  have : 0 ≤ evalBound := by unfold evalBound contemptMax; omega
+  unfold EvalRange; omega
 
 /-! ### the iteration loop -/
 
